@@ -453,6 +453,15 @@ func (env *Zlisp) PrepareCallExprArgs(function *SexpFunction, args []Sexp) error
 		if err != nil {
 			return err
 		}
+		if sym, isSym := val.(*SexpSymbol); isSym && sym.isDot && function != nil && !function.user {
+			// a dot path names something in the caller's scope: resolve it
+			// here, not when the callee binds its parameter, where the
+			// private names of the callee's package are in scope.
+			val, err = env.RValue(val)
+			if err != nil {
+				return err
+			}
+		}
 		env.datastack.PushExpr(val)
 	}
 	return nil
